@@ -160,6 +160,25 @@ def case_s(draw) -> dict[str, Any]:
             lst.insert(draw(st.integers(0, len(lst))), [draw(st.sampled_from(DELAYS)), a])
         reactions.append(lst)
     unsolicited = [[t, f] for t, f in draw(st.lists(st.tuples(st.integers(1, 300), frame_s(False)), max_size=4))]
+    if draw(st.integers(0, 7)) == 0:
+        # a burst: 17..48 frames (diagnostic messages for this tester or for others) while the client is busy or blocked in one
+        # read, an alive check behind them, then enough reads to drain everything
+        n = draw(st.integers(17, 48))
+        t0 = draw(st.integers(1, 40))
+        mine = draw(st.sampled_from(["mine", "other", "mixed"]))
+        burst = []
+        for i in range(n):
+            own = mine == "mine" or (mine == "mixed" and draw(st.booleans()))
+            burst.append([t0 + i, {"t": "diag", "p": bytes([0x62, i])} if own else
+                          {"t": "diag-other", "a": draw(addr16), "b": draw(addr16), "pair": draw(st.sampled_from(["rand", "src-only-differs", "dst-only-differs"])), "p": bytes([0x62, i])}])
+        burst.append([t0 + n + draw(st.integers(0, 3)), {"t": "alive"}])
+        if mine != "mine":
+            burst.append([t0 + n + 5, {"t": "diag", "p": b"\x62\xff\xee"}])
+        unsolicited = burst
+        program = [o for o in program if o[0] != "write"][:2] + [["sleep", 1.1001]] * draw(st.integers(0, 1)) + [["read", 1.3701] for _ in range(draw(st.integers(1, 6)))]
+        if mine != "other":
+            program += [["read", 0.3701] for _ in range(n)]
+        reactions = []
     return {"src": src, "tgt": tgt, "ver": draw(st.sampled_from([2, 3, 3, 1])), "program": program, "reactions": reactions,
             "unsolicited": unsolicited, "splits": draw(st.lists(st.integers(0, 200), max_size=8))}
 
